@@ -11,6 +11,8 @@ is C04 (`strand_jobs_ordered`), not stated here.
 -/
 import YaclibModel.Proofs.StrandRun
 import YaclibModel.Proofs.StrandTowerBase
+import YaclibModel.Proofs.StrandTowerInline
+import YaclibModel.Proofs.StrandTowerManual
 import YaclibModel.Proofs.PoolExecContract
 import YaclibModel.Extracted.Kernels
 import YaclibModel.Model.Skeletons
@@ -332,6 +334,89 @@ theorem tower_over_pool {n : Nat} (hn : 0 < n) (stop : Option Pool.StopKind) (sp
     ExecContract (tower (Pool.poolExec n stop spur) k) :=
   tower_satisfies_contract (Pool.pool_contract hn stop spur) k
 
+/-! #### the library's Inline and Manual executors as bases (models in Proofs/StrandTowerInline.lean, StrandTowerManual.lean) -/
+
+/-- `MakeInline()` (`alive = true`: Submit Calls the job at once in the caller's thread) and `MakeInline(StopTag)`
+    (`alive = false`: Submit Drops it at once) honour the contract; no client obligation beyond the protocol -/
+theorem inline_honours_contract (alive : Bool) : ExecContract (inlineExec alive) := inline_contract alive
+
+/-- `Alive()` is `!Stopped`: the alive Inline never Drops, the stopped one never Calls -/
+theorem inline_alive_iff_calls {p p' : Prot} {a : Nat} :
+    ¬ (inlineExec true).step p (.drop a) p' ∧ ¬ (inlineExec false).step p (.call a) p' :=
+  ⟨inline_alive_never_drops, inline_stopped_never_calls⟩
+
+/-- the ManualExecutor honours the contract **under the obligation that its owner keeps draining it and does not
+    destroy it while jobs are queued**: in `manualExec false` entering `Drain()` is a step that is enabled whenever
+    something is queued (the owner's side, like `ret` is the job's side), which is what makes "nothing pending when
+    nothing can move" true.  It never Drops (`Alive()` is constantly true; there is no Stop). -/
+theorem manual_honours_contract : ExecContract (manualExec false) := manual_contract
+
+/-- … and the obligation is necessary: the code has no destructor that Drops the queue, so with an owner that may
+    destroy the executor at any moment (`manualExec true`) a submitted job can end up neither Called nor Dropped -/
+theorem manual_needs_draining_owner_witness : ¬ ExecContract (manualExec true) := manual_destroy_leaks_witness
+
+/-- towers of strands over the Inline executors and over a (drained) ManualExecutor honour the contract … -/
+theorem tower_over_inline (alive : Bool) (n : Nat) : ExecContract (tower (inlineExec alive) n) :=
+  tower_satisfies_contract (inline_contract alive) n
+
+theorem tower_over_manual (n : Nat) : ExecContract (tower (manualExec false) n) :=
+  tower_satisfies_contract manual_contract n
+
+/-- … and lose nothing: when nothing in the whole system (clients with any workload, n strands, the Inline executor
+    or the ManualExecutor with its draining owner) can move, every job of the workload was Called or Dropped by the
+    top strand and every level is idle and done.  (Over the stopped Inline executor every job is Dropped; over the
+    ManualExecutor the state cannot be quiescent while a strand activation is queued, because `Drain()` is enabled.) -/
+theorem tower_over_inline_nothing_lost (alive : Bool) {w : Workload} {n : Nat} {s : (towerTop w (inlineExec alive) n).σ}
+    (hr : (towerTop w (inlineExec alive) n).Reach s) (hq : ∀ l s', ¬ (towerTop w (inlineExec alive) n).step s l s') :
+    LevelDone s.1 ∧ (∀ i k, k < jobsOf w i → (⟨i, k⟩ : JobId) ∈ s.1.executed ∨ (⟨i, k⟩ : JobId) ∈ s.1.dropped) ∧
+    ∀ v ∈ levels (inlineExec alive) n s.2.1, LevelDone v := by
+  obtain ⟨h1, h2, h3⟩ := top_quiescent (inline_contract alive) hr hq
+  exact ⟨h1, fun i k hk => h1.all_done i k (by rw [h2 i]; exact hk), h3⟩
+
+theorem tower_over_manual_nothing_lost {w : Workload} {n : Nat} {s : (towerTop w (manualExec false) n).σ}
+    (hr : (towerTop w (manualExec false) n).Reach s) (hq : ∀ l s', ¬ (towerTop w (manualExec false) n).step s l s') :
+    LevelDone s.1 ∧ (∀ i k, k < jobsOf w i → (⟨i, k⟩ : JobId) ∈ s.1.executed ∨ (⟨i, k⟩ : JobId) ∈ s.1.dropped) ∧
+    ∀ v ∈ levels (manualExec false) n s.2.1, LevelDone v := by
+  obtain ⟨h1, h2, h3⟩ := top_quiescent manual_contract hr hq
+  exact ⟨h1, fun i k hk => h1.all_done i k (by rw [h2 i]; exact hk), h3⟩
+
+/-- non-vacuity: one strand over a ManualExecutor — the job is pushed, the strand's activation is queued in the
+    ManualExecutor, the owner enters `Drain()`, the loop Calls the activation, which runs the job and gives the strand
+    back; `Drain()` returns 1 -/
+example : ∃ (s : (tower (manualExec false) 1).σ) (p : Prot), (tower (manualExec false) 1).Run s p ∧ p 0 = .finished ∧
+    (levels (manualExec false) 1 s).map (·.executed) = [[j00]] ∧ s.2.1.queue = [] ∧ s.2.1.draining = false ∧
+    s.2.1.done = 1 := by
+  have h0 : (tower (manualExec false) 1).Run (tower (manualExec false) 1).init protInit := .init
+  have h1 := Exec.Run.inp h0 (PStep.up (viaNext (.sLoad 0 .mark) rfl) rfl) rfl rfl rfl
+  have h2 := Exec.Run.tau h1 (PStep.up (viaNext (.sCasOk 0) rfl) rfl) rfl
+  have h3 := Exec.Run.tau h2 (PStep.sync (viaNext (.sSched 0) rfl) rfl
+    (lx := MLab.ev (.sub 0)) (x' := _) (by exact ⟨rfl, rfl, rfl⟩) rfl) rfl
+  have h4 := Exec.Run.tau h3 (PStep.low (lx := MLab.drainEnter) (x' := _) (by exact ⟨rfl, rfl, by simp, rfl⟩) rfl) rfl
+  have h5 := Exec.Run.tau h4 (PStep.sync (viaNext (.aCall 0) rfl) rfl
+    (lx := MLab.ev (.call 0)) (x' := _) (by exact ⟨rfl, rfl, rfl, [], rfl, rfl⟩) rfl) rfl
+  have h6 := Exec.Run.out h5 (PStep.up (viaNext (.aBegin 0 j00) rfl) rfl) rfl rfl
+  have h7 := Exec.Run.inp h6 (PStep.up (viaNext (.aEnd 0 j00) rfl) rfl) rfl rfl rfl
+  have h8 := Exec.Run.tau h7 (PStep.up (viaNext (.aLoad 0 true) rfl) rfl) rfl
+  have h9 := Exec.Run.tau h8 (PStep.up (viaNext (.aCasOk 0) rfl) rfl) rfl
+  have h10 := Exec.Run.tau h9 (PStep.lret (lx := MLab.ev (.ret 0)) (x' := _) (by exact ⟨rfl, rfl, rfl⟩) rfl rfl
+    (Or.inr rfl)) rfl
+  have h11 := Exec.Run.tau h10 (PStep.low (lx := MLab.drainExit) (x' := _) (by exact ⟨rfl, rfl, rfl, rfl, rfl⟩) rfl) rfl
+  exact ⟨_, _, h11, rfl, rfl, rfl, rfl, rfl⟩
+
+/-- non-vacuity: one strand over `MakeInline(StopTag)` — Submit of the strand's activation Drops it at once, the
+    strand Drops the job and is idle again -/
+example : ∃ (s : (tower (inlineExec false) 1).σ) (p : Prot), (tower (inlineExec false) 1).Run s p ∧ p 0 = .finished ∧
+    (levels (inlineExec false) 1 s).map (fun v => (v.executed, v.dropped, v.word)) = [([], [j00], .mark)] := by
+  have h0 : (tower (inlineExec false) 1).Run (tower (inlineExec false) 1).init protInit := .init
+  have h1 := Exec.Run.inp h0 (PStep.up (viaNext (.sLoad 0 .mark) rfl) rfl) rfl rfl rfl
+  have h2 := Exec.Run.tau h1 (PStep.up (viaNext (.sCasOk 0) rfl) rfl) rfl
+  have h3 := Exec.Run.tau h2 (PStep.sync (viaNext (.sSched 0) rfl) rfl
+    (lx := XEv.sub 0) (x' := _) (by exact ⟨rfl, rfl⟩) rfl) rfl
+  have h4 := Exec.Run.tau h3 (PStep.sync (viaNext (.aDropX 0) rfl) rfl
+    (lx := XEv.drop 0) (x' := _) (by exact ⟨rfl, rfl, rfl⟩) rfl) rfl
+  have h5 := Exec.Run.out h4 (PStep.up (viaNext (.aDrop 0 j00) rfl) rfl) rfl rfl
+  exact ⟨_, _, h5, rfl, rfl⟩
+
 /-- what C07 says about one strand, as a predicate on its state -/
 structure LevelProps (v : State) : Prop where
   one_at_a_time : v.running ≤ 1
@@ -425,5 +510,10 @@ open Yaclib
 theorem tie_Strand_Submit : Extracted.Kernels.Strand_Submit = Skeletons.Strand_Submit := rfl
 theorem tie_Strand_Call : Extracted.Kernels.Strand_Call = Skeletons.Strand_Call := rfl
 theorem tie_Strand_Drop : Extracted.Kernels.Strand_Drop = Skeletons.Strand_Drop := rfl
+/-- the base executor models `inlineExec` / `manualExec` were written from these (also tied in Props/C05) -/
+theorem tie_Inline_Submit : Extracted.Kernels.Inline_Submit = Skeletons.Inline_Submit := rfl
+theorem tie_Inline_Alive : Extracted.Kernels.Inline_Alive = Skeletons.Inline_Alive := rfl
+theorem tie_Manual_Submit : Extracted.Kernels.Manual_Submit = Skeletons.Manual_Submit := rfl
+theorem tie_Manual_Drain : Extracted.Kernels.Manual_Drain = Skeletons.Manual_Drain := rfl
 
 end Yaclib.Props.C07.Tie
